@@ -61,8 +61,21 @@ def rgbaG : G RGBA := do
 def utf8 (s : String) : Bytes := s.toUTF8.data.toList
 
 def nameG : G Bytes := do
-  let k ← below 12
+  let k ← below 23
   match k with
+  -- strings a normalising decoder would change: byte order mark, surrounding white space, NUL,
+  -- case-mapping and normalisation-sensitive characters, the ends of the scalar-value ranges
+  | 12 => pure (utf8 "\uFEFFdup")
+  | 13 => pure (utf8 "\uFEFF")
+  | 14 => pure (utf8 "  padded \t")
+  | 15 => pure (utf8 "a\x00b")
+  | 16 => pure (utf8 "İSTANBUL ß ǅ")
+  | 17 => pure (utf8 "e\u0301")
+  | 18 => pure (utf8 "\r\n")
+  | 19 => pure (utf8 (String.ofList [Char.ofNat 0xD7FF, Char.ofNat 0xE000, Char.ofNat 0xFFFF, Char.ofNat 0x10FFFF]))
+  | 20 => pure (utf8 "dup\uFEFF")
+  | 21 => pure (utf8 "sky\x00")
+  | 22 => pure (utf8 "\x00\x00")
   | 0 => pure []
   | 1 => pure (utf8 "a")
   | 2 => pure (utf8 "Layer 1")
@@ -89,7 +102,7 @@ structure Cfg where
   maxH : Nat := 10
   maxFrames : Nat := 4
   maxLayers : Nat := 5
-  maxTags : Nat := 4
+  maxTags : Nat := 16
   maxSlices : Nat := 2
   maxKeys : Nat := 3
   tilesets : Bool := true
@@ -177,6 +190,9 @@ def programG (cfg : Cfg) : G Program := do
   let h ← if ← chance 1 20 then pure 1 else range 1 cfg.maxH
   let nFrames ← range 1 cfg.maxFrames
   let pad := cfg.padding
+  -- sometimes every tag / slice / layer name is empty (the smallest possible entries)
+  let noNames ← chance 1 10
+  let nm : G Bytes := if noNames then pure [] else nameG
   -- palette
   let palFirst ← if depth == 8 then (do if ← chance 1 3 then range 1 40 else pure 0) else pure 0
   let palCount ← range 1 20
@@ -187,6 +203,12 @@ def programG (cfg : Cfg) : G Program := do
     let hasName ← chance 1 4
     let hi ← if ← chance 1 4 then (do let x ← below 100; pure (x * 2)) else pure 0
     pure (PalEntrySpec.mk (UInt16.ofNat ((if hasName then 1 else 0) + hi)) (← rgbaG) (← nameG)))
+  -- sometimes several palette ids carry the same colour (also the colour of the transparent index)
+  let dupColours ← chance 1 3
+  let palEntries : List PalEntrySpec := if dupColours then
+      (palEntries.zipIdx.map (fun ((e : PalEntrySpec), (i : Nat)) =>
+        if i % 3 == 1 then PalEntrySpec.mk e.flags (palEntries.getD (i - 1) e).rgba e.name else e))
+    else palEntries
   let newPal : Item := .palette (← u32) (UInt32.ofNat palFirst) (← bytesN 8) palEntries
   let oldScaled ← chance 1 2
   let oldPackets ← (do
@@ -255,7 +277,7 @@ def programG (cfg : Cfg) : G Program := do
     let tsId := ((tilesetSpecs.getD plan.tileset default).id)
     pure (LayerSpec.mk (UInt16.ofNat flags) (UInt16.ofNat plan.ltype)
             (UInt16.ofNat (levels.getD i 0)) (← u16) (← u16) (UInt16.ofNat blend) (← edgeByte)
-            (← byte) (← u16) (← nameG) tsId))
+            (← byte) (← u16) (← nm) tsId))
   -- cels: decide per (frame, layer) what exists; raw cels first so that links have targets
   let mut celKinds : Array (Array Nat) := Array.replicate nFrames (Array.replicate nLayers 0)
   for f in [0:nFrames] do
@@ -313,7 +335,7 @@ def programG (cfg : Cfg) : G Program := do
           let n ← range 0 cfg.maxTags
           let ts ← (List.range n).mapM (fun _ => do
             pure (TagSpec.mk (← u16) (← u16) (UInt8.ofNat (← below 3))
-                    (← pick [0, 1, 65535, (← u16)]) (← bytesN 6) (← u32) (← nameG)))
+                    (← pick [0, 1, 65535, (← u16)]) (← bytesN 6) (← u32) (← nm)))
           chunks := chunks ++ [⟨.tags (← bytesN 8) ts, ← padG pad⟩]
           -- at most n user data records follow
           if cfg.userData then
@@ -329,7 +351,7 @@ def programG (cfg : Cfg) : G Program := do
           let keys ← (List.range nk).mapM (fun _ => do
             pure (← u32, ← i32, ← i32, ← u32, ← u32, Slice9.mk (← i32) (← i32) (← u32) (← u32),
                   (← i32, ← i32)))
-          chunks := chunks ++ [⟨.slice ⟨UInt32.ofNat (flags + hi), ← u32, ← nameG, keys⟩, ← padG pad⟩]
+          chunks := chunks ++ [⟨.slice ⟨UInt32.ofNat (flags + hi), ← u32, ← nm, keys⟩, ← padG pad⟩]
                       ++ (← maybeUD cfg pad)
     if f == 1 then
       if hasNewPal && newPalLate then chunks := chunks ++ [⟨newPal, ← padG pad⟩]
@@ -353,9 +375,10 @@ def programG (cfg : Cfg) : G Program := do
       let kind := (celKinds[f]!)[l]!
       if kind != 0 then
         let plan := layerPlans.getD l default
-        let x ← if ← chance 1 6 then i16 else
+        let fullCanvas ← chance 1 5
+        let x ← if fullCanvas then pure 0 else if ← chance 1 6 then i16 else
           (do let v ← below (w + 8); pure (Int16.ofInt ((v : Int) - 4)))
-        let y ← if ← chance 1 6 then i16 else
+        let y ← if fullCanvas then pure 0 else if ← chance 1 6 then i16 else
           (do let v ← below (h + 8); pure (Int16.ofInt ((v : Int) - 4)))
         let body ← (do
           if kind == 4 then do
@@ -380,7 +403,15 @@ def programG (cfg : Cfg) : G Program := do
             -- rarely a cel without pixels (a zero dimension is allowed)
             let cw ← if ← chance 1 25 then pure 0 else range 1 (w + 3)
             let chh ← if ← chance 1 25 then pure 0 else range 1 (h + 3)
+            -- often exactly the canvas (what Aseprite writes for a filled layer)
+            let (cw, chh) := if fullCanvas then (w, h) else (cw, chh)
             let px ← pixelsG depth palIds (cw * chh)
+            -- sometimes every pixel of the cel is opaque
+            let opq ← chance 1 4
+            let px := if !opq then px else
+              if depth == 32 then px.zipIdx.map (fun (b, i) => if i % 4 == 3 then 255 else b)
+              else if depth == 16 then px.zipIdx.map (fun (b, i) => if i % 2 == 1 then 255 else b)
+              else px
             pure (CelBody.image (UInt16.ofNat cw) (UInt16.ofNat chh) px
                     (if kind == 2 then some (Zlib.deflateStored px) else none)))
         -- tile-aligned offsets for tilemap cels
